@@ -187,6 +187,73 @@ def clipBound (b bound : Bound α) : Bound α :=
   else if bound.isEmpty then b
   else ⟨⟨max b.lo.x bound.lo.x, max b.lo.y bound.lo.y⟩, ⟨min b.hi.x bound.hi.x, min b.hi.y bound.hi.y⟩⟩
 
+/-- `clip.MultiPoint`. -/
+def multiPoint (box : Bound α) (mp : List (Pt α)) : List (Pt α) := mp.filter fun p => box.contains p
+
+/-- `clip.Geometry`: bound pre-test, per-kind dispatch, single-member unwrapping, nil rules.
+    Outer `none` = the model got stuck (unreachable); inner `none` = the Go result `nil`. -/
+def geometry (eb : Bound α) (box : Bound α) : Geom α → Option (Option (Geom α))
+  | .point p =>
+    if !(box.intersects (Core.bound eb (.point p))) then some none else some (some (.point p))
+  | .multiPoint ps =>
+    if !(box.intersects (Core.bound eb (.multiPoint ps))) then some none else
+    (match multiPoint box ps with
+     | [] => some none
+     | [p] => some (some (.point p))
+     | l => some (some (.multiPoint l)))
+  | .lineString ps =>
+    if !(box.intersects (Core.bound eb (.lineString ps))) then some none else
+    (match line box false ps with
+     | none => none
+     | some [] => some none
+     | some [l] => some (some (.lineString l))
+     | some l => some (some (.multiLineString l)))
+  | .multiLineString ls =>
+    if !(box.intersects (Core.bound eb (.multiLineString ls))) then some none else
+    (match multiLineString box false ls with
+     | none => none
+     | some [] => some none
+     | some [l] => some (some (.lineString l))
+     | some l => some (some (.multiLineString l)))
+  | .ring r =>
+    if !(box.intersects (Core.bound eb (.ring r))) then some none else
+    (match ring box r with
+     | none => none
+     | some [] => some none
+     | some r' => some (some (.ring r')))
+  | .polygon p =>
+    if !(box.intersects (Core.bound eb (.polygon p))) then some none else
+    (match polygon box p with
+     | none => none
+     | some [] => some none
+     | some p' => some (some (.polygon p')))
+  | .multiPolygon mp =>
+    if !(box.intersects (Core.bound eb (.multiPolygon mp))) then some none else
+    (match multiPolygon box mp with
+     | none => none
+     | some [] => some none
+     | some [p] => some (some (.polygon p))
+     | some l => some (some (.multiPolygon l)))
+  | .bound a b =>
+    if !(box.intersects ⟨a, b⟩) then some none else
+    let r := clipBound box ⟨a, b⟩
+    if r.isEmpty then some none else some (some (.bound r.lo r.hi))
+  | .collection gs =>
+    if !(box.intersects (Core.bound eb (.collection gs))) then some none else
+    (match collect eb box gs with
+     | none => none
+     | some [] => some none
+     | some [g] => some (some g)
+     | some l => some (some (.collection l)))
+where
+  collect (eb : Bound α) (box : Bound α) : List (Geom α) → Option (List (Geom α))
+    | [] => some []
+    | g :: rest =>
+      match geometry eb box g, collect eb box rest with
+      | some none, some r => some r
+      | some (some c), some r => some (c :: r)
+      | _, _ => none
+
 end model
 
 end Orb.Clip
